@@ -72,6 +72,7 @@ structure LockedRec where
   product   : Nat
   amountIn  : Int
   amountOut : Int          -- principal at seizure
+  debt      : Int := 0     -- principal + interest + closing fee at seizure (what the auction must recover apart from the penalty)
   deriving Repr, DecidableEq
 
 structure State where
@@ -226,6 +227,7 @@ inductive Msg where
   | donate (from_ d : Nat) (amt : Int)           -- plain bank send to the vault module account
   | fund (to d : Nat) (amt : Int)                -- coins minted outside the vault module (test funding)
   | seize (vaultId : Nat)                        -- liquidationsV2 hand-over to auction custody
+  | settle (vaultId : Nat)                       -- the auction of a seized vault closes (auctionsV2 bid.go:188-190)
   deriving Repr
 
 def create (s : State) (p : Product) (e : Env) (from_ app prod : Nat) (amtIn amtOut : Int) : Option State :=
@@ -414,9 +416,22 @@ def seize (s : State) (p : Product) (e : Env) (vaultId : Nat) : Option State :=
     if v.product ≠ p.id ∨ i < 0 then none else
       (runBank s [.sendPos vm am p.denomIn v.amountIn]).map fun s1 =>
         { s1 with vaults := delVault s1.vaults v.id, length := s1.length - 1,
-                  locked := s1.locked ++ [{ vaultId := v.id, product := v.product, amountIn := v.amountIn, amountOut := v.amountOut }],
+                  locked := s1.locked ++ [{ vaultId := v.id, product := v.product, amountIn := v.amountIn, amountOut := v.amountOut,
+                                            debt := v.amountOut + (v.interest + i) + v.closingFee }],
                   vaultIds := updL s1.vaultIds p.id ((s1.vaultIds p.id).erase v.id) }
   | _, _ => none
+
+/-- the vault-side bookkeeping when the auction of a seized vault closes (x/auctionsV2/keeper/bid.go:93,188-190): the
+product's collateral total is reduced by the seized collateral and its minted total by `TargetDebt − penalty`, i.e. by
+principal + interest + closing fee (NOT by the principal alone — recorded finding D13). What the auction does with the
+bidders' coins, the penalty and the burn is the subject of C10; no vault-module balance moves here. -/
+def settle (s : State) (vaultId : Nat) : Option State :=
+  match s.locked.find? (·.vaultId = vaultId) with
+  | none => none
+  | some l =>
+    some { s with locked := s.locked.filter (·.vaultId ≠ vaultId),
+                  coll := upd1 s.coll l.product (s.coll l.product - l.amountIn),
+                  minted := upd1 s.minted l.product (s.minted l.product - l.debt) }
 
 /-- the product a message refers to (for `interestCalc` / `seize`: the product of the named vault) -/
 def Msg.product (s : State) : Msg → Option Nat
@@ -424,7 +439,7 @@ def Msg.product (s : State) : Msg → Option Nat
   | .close _ _ pr _ | .depositAndDraw _ _ pr _ _ | .stableCreate _ _ pr _ | .stableDeposit _ _ pr _ _
   | .stableWithdraw _ _ pr _ _ => some pr
   | .interestCalc _ v | .seize v => (findVault s v).map (·.product)
-  | .donate .. | .fund .. => none
+  | .donate .. | .fund .. | .settle .. => none
 
 def stepP (s : State) (p : Product) (e : Env) : Msg → Option State
   | .create f a pr i o => create s p e f a pr i o
@@ -441,6 +456,7 @@ def stepP (s : State) (p : Product) (e : Env) : Msg → Option State
   | .seize v => seize s p e v
   | .donate f d x => donate s f d x
   | .fund t d x => fund s t d x
+  | .settle v => settle s v
 
 /-- one message; `cfg` is the static product configuration (extended pair vaults). A message naming an unknown
 product is rejected (`ErrorExtendedPairVaultDoesNotExists`). -/
@@ -448,6 +464,7 @@ def step (cfg : Nat → Option Product) (s : State) (e : Env) (m : Msg) : Option
   match m with
   | .donate f d x => donate s f d x
   | .fund t d x => fund s t d x
+  | .settle v => settle s v
   | _ =>
     match m.product s with
     | none => none
